@@ -148,9 +148,30 @@ GEN(int) @G(n int) {
 
 	{Name: "ArrayRangeNotAddressable", Props: []string{"C04", "C11"}, Src: `
 func @arr() [3]int { return [3]int{1, 2, 3} }
+type @board struct{ row [2]int }
+func @mk() @board { return @board{row: [2]int{5, 6}} }
 GEN(int) @G() {
 	for i, v := range @arr() { // an array VALUE that is not addressable: a function result
 		YIELD(i*10 + v)
+	}
+	m := map[string][2]int{"k": {7, 8}}
+	for _, v := range m["k"] { // a map element
+		YIELD(v)
+	}
+	for _, v := range @mk().row { // a field of a call result
+		YIELD(v)
+	}
+	ch := make(chan [2]int, 1)
+	ch <- [2]int{9, 10}
+	for _, v := range <-ch { // a received value
+		YIELD(v)
+	}
+	var x any = [2]int{11, 12}
+	for _, v := range x.([2]int) { // a type assertion
+		YIELD(v)
+	}
+	for _, v := range ([2]int{13, 14}) { // a parenthesised literal
+		YIELD(v)
 	}
 	RETURN
 }`, Drives: []Drive{gen("int", "@G", "")}},
@@ -384,6 +405,80 @@ GEN(bool) @Flags(n int) {
 	}
 	RETURN
 }`, Drives: []Drive{gen("int", "@Caps", ""), gen("int", "@RunningMax", "[]int{3, 1, 5, 4}"), gen("int", "@Len", ""), gen("bool", "@Flags", "3")}},
+
+	{Name: "NativeRangeKindsWithBranches", Props: []string{"C12", "C04", "C01"}, Src: `
+// range statements the lowering has no case for stay native statements when their body does not yield: a
+// break / continue in them belongs to them
+GEN(int) @FirstNeg(p *[5]int) {
+	idx := -1
+	for i, v := range p {
+		if v < 0 { idx = i; break }
+	}
+	YIELD(idx)
+	YIELD(100)
+	RETURN
+}
+func @sumPos[S ~[]int](s S) ITER(int) { return GENCALL(int, @SumPos[S], s) }
+GEN(int) @SumPos[S ~[]int](s S) {
+	t := 0
+	for _, v := range s {
+		if v < 0 { continue }
+		t += v
+	}
+	YIELD(t)
+	YIELD(200)
+	RETURN
+}
+GEN(int) @RowLens(rows []*[2]int) {
+	for _, r := range rows {
+		n := 0
+		for _, v := range r {
+			if v == 0 { break }
+			n++
+		}
+		YIELD(n)
+	}
+	RETURN
+}`, Drives: []Drive{gen("int", "@FirstNeg", "&[5]int{3, 1, -4, 1, -5}"), gen("int", "@SumPos[[]int]", "[]int{5, -1, 7}"),
+		gen("int", "@RowLens", "[]*[2]int{{1, 2}, {3, 0}, {0, 0}}")}},
+
+	{Name: "IteratorVariableReassigned", Props: []string{"C03", "C06", "C07", "C13"}, Src: `
+// a VARIABLE of the iterator type is an ordinary variable: closures and loop conditions that call its methods
+// see a later assignment to it
+GEN(int) @Count(a, b int) {
+	for i := a; i <= b; i++ { YIELD(i) }
+	RETURN
+}
+GEN(int) @Chain() {
+	cur := GENCALL(int, @Count, 1, 3)
+	more := func() bool { return cur.MoveNext() }
+	val := func() int { return cur.Current() }
+	for more() { YIELD(val()) }
+	cur = GENCALL(int, @Count, 10, 12)
+	for more() { YIELD(val()) }
+	RETURN
+}
+GEN(int) @Switch() {
+	cur := GENCALL(int, @Count, 1, 5)
+	first := true
+	for cur.MoveNext() {
+		YIELD(cur.Current())
+		if first {
+			first = false
+			cur = GENCALL(int, @Count, 10, 11)
+		}
+	}
+	RETURN
+}
+func @Plain() int {
+	cur := GENCALL(int, @Count, 1, 2)
+	more := func() bool { return cur.MoveNext() }
+	n := 0
+	for more() { n++ }
+	cur = GENCALL(int, @Count, 1, 3)
+	for more() { n += 10 }
+	return n
+}`, Drives: []Drive{gen("int", "@Chain", ""), gen("int", "@Switch", ""), fn("int", "@Plain", "")}},
 
 	{Name: "RangeBodyRedeclares", Props: []string{"C04", "C03"}, Src: `
 // the body of a range statement is its own block: it may redeclare the range variables, and closures made
@@ -698,6 +793,39 @@ GEN(int) @Last(k int) {
 	RETURN
 }`, Drives: []Drive{gen("int", "@First", "0"), gen("int", "@First", "1"), gen("int", "@First", "2"), gen("int", "@Middle", "1"), gen("int", "@Middle", "2"),
 		gen("int", "@Last", "0"), gen("int", "@Last", "2")}},
+
+	{Name: "YieldFromInLoopsWithPlainInit", Props: []string{"C05", "C01"}, Src: `
+// delegating loops whose init statement is a plain assignment, a call or an inc-dec (not a :=)
+type @N struct { Val int; Next *@N }
+GEN(int) @Mk(n int) {
+	vm.E("mk", n)
+	for i := 0; i < n; i++ { YIELD(i) }
+	RETURN
+}
+func @reset(p *int, v int) { *p = v }
+GEN(int) @Chain(lo, hi int) {
+	var i int
+	for i = lo; i < hi; i++ {
+		YIELDFROM(GENCALL(int, @Mk, i))
+	}
+	YIELD(-1)
+	for @reset(&i, lo); i < hi; i++ {
+		YIELDFROM(GENCALL(int, @Mk, 1))
+	}
+	for i++; i < hi+3; YIELDFROM(GENCALL(int, @Mk, 1)) {
+		i++
+	}
+	YIELD(i)
+	RETURN
+}
+GEN(int) @List(head *@N) {
+	var n *@N
+	YIELD(100)
+	for n = head; n != nil; n = n.Next {
+		YIELDFROM(GENCALL(int, @Mk, n.Val))
+	}
+	RETURN
+}`, Drives: []Drive{gen("int", "@Chain", "2, 4"), gen("int", "@List", "&@N{1, &@N{2, nil}}")}},
 
 	{Name: "YieldFromExhausted", Props: []string{"C05", "C09", "C06"}, Src: `
 // an exhausted delegate has no remaining elements: delegating to it again delivers nothing and runs
